@@ -58,7 +58,7 @@ class C11(XsProp):
             e = rng.choice(list(lits))
             lit = lits[e]
             pre, post = rng.choice(PRE), rng.choice(POST)
-            form = rng.choice(['top', 'top', 'vec', 'map', 'def', 'meta', 'defmeta'])
+            form = rng.choice(['top', 'top', 'vec', 'map', 'def', 'meta', 'defmeta', 'defnest', 'defnest2', 'vecnest'])
             consts = ' '.join(w for w in ('SIX', 'TWO') if w in e)
 
             def wrap(x):
@@ -72,7 +72,16 @@ class C11(XsProp):
                     return '%s : ff %s ; ff ff %s' % (pre, x, post)
                 if form == 'meta':
                     return '%s #( 1 drop %s #) %s' % (pre, x, post)
+                # a block nested in a block that stands in a word body / a builder, with values pending on the meta stack
+                if form == 'defnest':
+                    return '%s : ff #( 10 %s swap drop #) ; ff %s' % (pre, x, post)
+                if form == 'defnest2':
+                    return '%s : ff true if #( 10 20 %s rot rot drop drop #) then ; ff %s' % (pre, x, post)
+                if form == 'vecnest':
+                    return '%s [ #( 10 %s swap drop #) ] %s' % (pre, x, post)
                 return '%s #( : gg %s ; gg #) %s' % (pre, x, post)
+            if form in ('defnest', 'defnest2', 'vecnest') and 'depth' in e:
+                form = 'def'      # nested blocks share the meta stack (pinned by test_meta_stack): `depth` sees the pending values
             if form == 'map' and len(lit.split()) != 1 and not lit.startswith(('[', '{', '"', '|')):
                 form = 'top'
             a = wrap('#( %s #)' % e)
